@@ -48,6 +48,14 @@ pub struct Info {
 
 pub trait Scenario: Sync + Send {
     fn id(&self) -> &'static str;
+    /// name of the evidence file (without .json); differs from id() only for the node-level half of C16
+    fn evidence_name(&self) -> &'static str {
+        self.id()
+    }
+    /// the name this scenario is selected by on the command line
+    fn cli_name(&self) -> &'static str {
+        self.id()
+    }
     fn runs(&self, tier: Tier) -> u64;
     fn gen_plan(&self, rng: &mut Rng, tier: Tier, index: u64) -> Value;
     fn run(&self, plan: &Value, tape: Tape, keep_events: bool) -> RunOutput;
@@ -313,7 +321,7 @@ pub fn check(scn: &dyn Scenario, opts: &CheckOpts) -> i32 {
         let exe = std::env::current_exe().expect("exe");
         let child = |threads: &str| {
             std::process::Command::new(&exe)
-                .args(["digests", prop, &n.to_string(), "thorough"])
+                .args(["digests", scn.cli_name(), &n.to_string(), "thorough"])
                 .env("VERIF_THREADS", threads)
                 .env("VERIF_SEED", opts.seed.to_string())
                 .output()
@@ -342,9 +350,9 @@ pub fn check(scn: &dyn Scenario, opts: &CheckOpts) -> i32 {
             minimise(scn, &f.plan, &f.tape, &f.class, &f.detail, f.digest)
         };
         let _ = std::fs::create_dir_all(&opts.replay_dir);
-        let path = format!("{}/{}-{}-s{}-r{}.json", opts.replay_dir, prop, sanitize(&f.class), opts.seed, f.index);
+        let path = format!("{}/{}-{}-s{}-r{}.json", opts.replay_dir, scn.cli_name(), sanitize(&f.class), opts.seed, f.index);
         let file = json!({
-            "property": prop, "class": f.class, "detail": detail, "seed": opts.seed, "run_index": f.index,
+            "property": prop, "scenario": scn.cli_name(), "class": f.class, "detail": detail, "seed": opts.seed, "run_index": f.index,
             "tier": opts.tier.name(), "plan": plan, "tape": tape, "digest": format!("{:016x}", digest),
             "original_detail": f.detail,
         });
@@ -402,9 +410,9 @@ fn report_hang(scn: &dyn Scenario, opts: &CheckOpts, idx: u64, t0: Instant) -> !
     let prop = scn.id();
     let (plan, _) = generate(scn, opts.tier, opts.seed, idx);
     let _ = std::fs::create_dir_all(&opts.replay_dir);
-    let path = format!("{}/{}-hang-s{}-r{}.json", opts.replay_dir, prop, opts.seed, idx);
+    let path = format!("{}/{}-hang-s{}-r{}.json", opts.replay_dir, scn.cli_name(), opts.seed, idx);
     let file = json!({
-        "property": prop, "class": "hang", "detail": "the run blocked its runtime thread (no progress in wall time)",
+        "property": prop, "scenario": scn.cli_name(), "class": "hang", "detail": "the run blocked its runtime thread (no progress in wall time)",
         "seed": opts.seed, "run_index": idx, "tier": opts.tier.name(), "plan": plan, "tape": Value::Null,
     });
     std::fs::write(&path, serde_json::to_string_pretty(&file).unwrap()).expect("write replay");
@@ -738,6 +746,6 @@ fn write_evidence(scn: &dyn Scenario, opts: &CheckOpts, a: &Agg, det_checked: u6
         "violations": reported,
     });
     let _ = std::fs::create_dir_all(&opts.evidence_dir);
-    let path = format!("{}/{}.json", opts.evidence_dir, scn.id());
+    let path = format!("{}/{}.json", opts.evidence_dir, scn.evidence_name());
     std::fs::write(&path, serde_json::to_string_pretty(&ev).unwrap()).expect("write evidence");
 }
